@@ -41,15 +41,27 @@ def errJ : Err → Json
   | .key => Json.mkObj [("ok", false), ("err", "Key"), ("why", "not-introduced")]
   | .fuel => Json.mkObj [("ok", false), ("err", "Fuel"), ("why", "model-out-of-fuel")]
 
+/-- `spox.build(inputs, outputs, drop_unused_inputs=True)` on the same program: verdict and model inputs -/
+def pubJ (p : Prog) (req : Json) : List (String × Json) :=
+  match req.getObjValAs? (List Nat) "pub_inputs" with
+  | .error _ => []
+  | .ok inputs =>
+    match publicBuild p inputs true with
+    | .error (.build e) => [("pub", (errJ e))]
+    | .error .missingInput => [("pub", Json.mkObj [("ok", false), ("err", "Key"), ("why", "missing-input")])]
+    | .ok (_, tr, kept) =>
+      [("pub", Json.mkObj [("ok", true), ("inputs", toJson kept),
+                           ("struct_ok", structOk (p.withMainArgs none) tr [])])]
+
 def handle (req : Json) : Json :=
   match parseProg req with
   | .error e => Json.mkObj [("error", e)]
   | .ok p =>
     let wf := p.WFb
     match build p with
-    | .error e => (errJ e).setObjVal! "wf" wf
+    | .error e => ((errJ e).setObjVal! "wf" wf).mergeObj (Json.mkObj (pubJ p req))
     | .ok (b, tr) =>
-      Json.mkObj [
+      Json.mkObj (([
         ("ok", true), ("wf", wf),
         ("graph_topo", toJson b.graphTopo),
         ("args_of", toJson (b.graphTopo.map (fun g => (g, lookupL b.argsOf g)))),
@@ -58,11 +70,14 @@ def handle (req : Json) : Json :=
             Json.arr #[toJson g, Json.arr ((b.scopeOwn g).map vJ).toArray])).toArray),
         ("trace", Json.arr (tr.map evJ).toArray),
         ("struct_ok", structOk p tr []),
+        -- the position of every emitted vertex as the ModelProto shows it (`placed_in_scope`)
+        ("placed", Json.arr ((placed tr []).map (fun e => Json.arr #[vJ e.1, toJson e.2])).toArray),
         -- the bridge to the shared program model (C01): the emission as a `Prog.EGraph`
         ("bridge_valid", let q := Bridge.toProg p b.argsOf
                          Prog.validG q.nodes (Bridge.toEGraph p b) q.main []),
         ("leak_free", Bridge.leakFreeB p b),
         ("bridge_wf", Prog.wfCheck (Bridge.toProg p b.argsOf).nodes),
-        ("bridge_same_emission", decide (Bridge.flatG (Bridge.toEGraph p b) = Bridge.flatTrace tr))]
+        ("bridge_same_emission", decide (Bridge.flatG (Bridge.toEGraph p b) = Bridge.flatTrace tr))] : List (String × Json))
+        ++ pubJ p req)
 
 end Drv.C04
